@@ -363,6 +363,7 @@ def run(ctx):
     for fw in ("twisted", "asyncio"):
         impl = wsrun.run_impl(scripts, fw, nproc=16)
         model = wsrun.run_model(ctx.driver, scripts, fw)
+        impl = wsrun.stabilise(scripts, fw, impl, model, res.notes)
         res.evaluations += len(scripts)
         for (s, times, exp), a, b in zip(cases, impl, model):
             if a != b:
